@@ -723,7 +723,7 @@ Lemma ci_do_media h c sid s to mk stream media :
 Proof.
   intros C Hs. unfold do_media. destruct to as [i|u| |]; try exact C.
   destruct (N.eqb mk 0).
-  - destruct (negb (offer_allowed (s_perms s) stream media)); [exact C|].
+  - destruct (negb (offer_allowed (s_perms s) stream _)); [exact C|].
     destruct (aget (s_pubs s) stream); [|now apply ci_start_create].
     apply ci_send_session. apply ci_put with s; auto.
   - destruct (N.eqb mk 1).
